@@ -16,8 +16,9 @@ structure Rec where
   ik  : Bytes
   deriving Repr, DecidableEq
 
-/-- Decode what an iterator yields. `Decode` errors are skipped by the worker (`continue`);
-`none` = the Go code would panic on a short key. -/
+/-- Decode what an iterator yields. `Decode` errors — since /repo 5ace897 also a key too short to be an
+internal key — are skipped by the worker (`continue`). `none` stood for the index-out-of-range of the old
+`Decode` on a short key; it is never the answer any more (`KB.decodeRecs_total`). -/
 def decodeRecs : List (Bytes × Bytes) → Option (List Rec)
   | [] => some []
   | (ik, v) :: rest =>
@@ -155,7 +156,10 @@ def runDeletes (mask : Nat → DelOutcome) (st : CompState) (acts : List Act) : 
 
 /-- `adjustPartitionsBorders` on partitions already sorted by start: start := previous end;
 end := index key of the same raw key when the end decodes with a non-zero revision
-(all but the last partition). `none` = `Decode` would panic on a short border. -/
+(all but the last partition). A border that does not decode — since /repo 5ace897 also one too short to be an
+internal key, e.g. a client-supplied range end clipped into a region — is left alone. `none` stood for the
+index-out-of-range of the old `Decode` on a short border; it is never the answer any more
+(`KB.adjustBorders_total`). -/
 def adjustBorders : Option Bytes → List (Bytes × Bytes) → Option (List (Bytes × Bytes))
   | _, [] => some []
   | prevEnd, [(s, e)] => some [(prevEnd.getD s, e)]
